@@ -44,7 +44,8 @@ EXPECTED_PROBES = ["multi_chunk_array_written", "zero_dim_array", "empty_array_o
                    "ndarray_fast_path", "set_roundtrip", "path_in_container", "dict_in_sequence",
                    "overwrite_existing_zip", "overwrite_existing_dir", "auto_store_suffix_appended",
                    "other_process_restart", "listing_order_nonidentity", "completion_order_nonfifo",
-                   "kind_tensor", "kind_module", "kind_obj_in_container", "kind_npscalar"]
+                   "kind_tensor", "kind_module", "kind_obj_in_container", "kind_npscalar",
+                   "kind_hybrid_module", "dot_prefixed_name"]
 
 
 def setup():
@@ -116,6 +117,10 @@ def _probe_graph(spec, probes):
             bump(probes, "set_roundtrip")
         elif k in ("tensor", "module", "npscalar"):
             bump(probes, f"kind_{k}")
+        elif k == "obj" and s.get("cls") == "Hybrid":
+            bump(probes, "kind_hybrid_module")
+        if k == "obj" and any(str(n).startswith(".") for n, _ in s["attrs"]):
+            bump(probes, "dot_prefixed_name")
 
 
 def _other_process_load(path, spec, env):
